@@ -723,6 +723,14 @@ def run(ctx):
             if f.kind == "packed":
                 first.append(("links", cid, f.name, "alone", [[1, 2], [256], [1, 2, 3]]))
     ctx.pmap(_work, first, parallel=False)
+    for cid, c in pkg.items():  # a message type declaring one tlv type twice: each of the sharing fields alone
+        for t, names in ts.shared_types(c).items():
+            for name in names:
+                f = next(f for f in ts.schema(c) if f.name == name)
+                if f.kind == "bytes":
+                    tree = {name: b"\x01"}
+                    for sig, detail in judge_message(c, tree):
+                        ctx.acc.violation(sig, "message", {"cls": cid, "tree": tree}, detail)
     work = [("message", cid, quick) for cid in list(pkg) + list(probes)]
     # packed id lists of received structures
     lists = _id_lists(quick)
@@ -761,7 +769,6 @@ def run(ctx):
         work.append(("charvalue", cvs[i : i + 200]))
 
     ctx.pmap(_work, work)
-    ctx.acc.viol.sort(key=lambda v: len(repr(v["params"])))
     ctx.exhaustive = True
     ctx.bounds.update(
         message_types_by_reflection=len(pkg), synthetic_types=len(probes), sizes=SIZES, separator_item_lengths=SEP_LENGTHS,
